@@ -1,0 +1,139 @@
+/*
+ *
+ *    Copyright (c) 2023-2026 Project CHIP Authors
+ *
+ *    Licensed under the Apache License, Version 2.0 (the "License");
+ *    you may not use this file except in compliance with the License.
+ *    You may obtain a copy of the License at
+ *
+ *        http://www.apache.org/licenses/LICENSE-2.0
+ *
+ *    Unless required by applicable law or agreed to in writing, software
+ *    distributed under the License is distributed on an "AS IS" BASIS,
+ *    WITHOUT WARRANTIES OR CONDITIONS OF ANY KIND, either express or implied.
+ *    See the License for the specific language governing permissions and
+ *    limitations under the License.
+ */
+
+//! Read-only observation hooks for external model-based verification.
+//!
+//! Only compiled with `--cfg rs_matter_verif`. Nothing in here changes the behaviour
+//! of the stack: the types below are plain-data snapshots of otherwise private state,
+//! filled in by `verif_*` accessors living next to the private fields they read.
+
+extern crate alloc;
+
+pub use alloc::vec::Vec;
+
+/// Role/state of an exchange slot, as a small integer:
+/// 0 = Initiator/Owned, 1 = Initiator/Dropped,
+/// 2 = Responder/AcceptPending, 3 = Responder/Owned, 4 = Responder/Dropped
+pub type RoleCode = u8;
+
+#[derive(Debug, Clone, PartialEq, Eq)]
+pub struct ExchangeSnap {
+    pub index: usize,
+    pub exch_id: u16,
+    pub role: RoleCode,
+    /// `(msg_ctr, retrans counter)` of the pending retransmission, if any
+    pub retrans: Option<(u32, u16)>,
+    /// `(msg_ctr, acknowledged)` of the pending acknowledgement, if any
+    pub ack: Option<(u32, bool)>,
+    pub group_data_ctr: Option<u32>,
+}
+
+#[derive(Debug, Clone, PartialEq, Eq)]
+pub struct SessionSnap {
+    pub id: u32,
+    /// 0 = PlainText, 1 = Pase, 2 = Case, 3 = Group
+    pub mode: u8,
+    pub fab_idx: u8,
+    pub cat_ids: [u32; 3],
+    pub group_id: u16,
+    pub local_nodeid: u64,
+    pub peer_nodeid: Option<u64>,
+    pub local_sess_id: u16,
+    pub peer_sess_id: u16,
+    pub msg_ctr: u32,
+    pub rx_max_ctr: u32,
+    pub rx_bitmap: u16,
+    /// Non-cryptographic fingerprints (FNV-1a) of the keys; never the keys themselves
+    pub enc_key_fp: u64,
+    pub dec_key_fp: u64,
+    pub att_challenge_fp: u64,
+    pub expired: bool,
+    pub reserved: bool,
+    pub last_use_ms: u64,
+    pub peer_addr_port: u16,
+    pub exchanges: Vec<ExchangeSnap>,
+}
+
+#[derive(Debug, Clone, PartialEq, Eq)]
+pub struct GroupCtrSnap {
+    pub fab_idx: u8,
+    pub src_nodeid: u64,
+    pub max_ctr: u32,
+    pub bitmap: u16,
+    pub last_used: u32,
+}
+
+#[derive(Debug, Clone, PartialEq, Eq, Default)]
+pub struct SessionsSnap {
+    pub next_sess_unique_id: u32,
+    pub next_sess_id: u16,
+    pub next_exch_id: u16,
+    pub sessions: Vec<SessionSnap>,
+    pub group_ctrs: Vec<GroupCtrSnap>,
+    pub global_group_data_ctr: u32,
+    pub group_data_ctr_boundary: u32,
+}
+
+#[derive(Debug, Clone, PartialEq, Eq, Default)]
+pub struct PaseSnap {
+    pub window_open: bool,
+    pub discriminator: u16,
+    pub opener_fab_idx: Option<u8>,
+    pub window_expiry_ms: u64,
+    pub pake_failures: u8,
+    /// `(expiry ms, exchange id raw)` of the single in-progress PASE handshake marker
+    pub session_timeout: Option<(u64, u32)>,
+}
+
+#[derive(Debug, Clone, PartialEq, Eq, Default)]
+pub struct FailSafeSnap {
+    pub armed: bool,
+    pub armed_at_ms: u64,
+    pub timeout_secs: u16,
+    pub fab_idx: u8,
+    pub flags: u8,
+    pub breadcrumb: u64,
+    pub root_ca_len: usize,
+    pub has_secret_key: bool,
+}
+
+#[derive(Debug, Clone, PartialEq, Eq, Default)]
+pub struct ResumptionSnap {
+    pub fab_idx: u8,
+    pub peer_nodeid: u64,
+    pub resumption_id_fp: u64,
+}
+
+#[derive(Debug, Clone, PartialEq, Eq, Default)]
+pub struct Snapshot {
+    pub now_ms: u64,
+    pub sessions: SessionsSnap,
+    pub pase: PaseSnap,
+    pub failsafe: FailSafeSnap,
+    pub resumption: Vec<ResumptionSnap>,
+    pub fabrics: Vec<u8>,
+}
+
+/// FNV-1a over a byte slice; used to fingerprint secrets without exposing them.
+pub fn fp(bytes: &[u8]) -> u64 {
+    let mut h: u64 = 0xcbf2_9ce4_8422_2325;
+    for b in bytes {
+        h ^= *b as u64;
+        h = h.wrapping_mul(0x0000_0100_0000_01b3);
+    }
+    h
+}
